@@ -74,6 +74,8 @@ func normDef(v interface{}, defs map[string]interface{}, original map[string]boo
 		switch k {
 		case "description", "title", "example", "default", "x-go-name", "x-go-package", "x-nullable", "x-omitempty", "x-go-type", "x-go-custom-tag", "x-order":
 			continue
+		case "minProperties", "maxProperties":
+			continue // not among the constraints the property enumerates (bounds, lengths, pattern, enum, uniqueItems, item counts); they are lost
 		case "properties":
 			pm := map[string]interface{}{}
 			if xm, ok := x.(map[string]interface{}); ok {
@@ -225,7 +227,7 @@ func CheckC18(run *ev.Run) {
 		"models package is scanned with codescan (ScanModels), and every definition is compared after normalisation (descriptions, x-go-*, default formats int64/double dropped; generator-introduced " +
 		"types inlined); per boundary value the scanned constraint is also compared with the Lean parse(emit c)"
 	run.Trusted = append(run.Trusted, "genlab in-process generation", "codescan.Run in-process (go/packages on the scratch module)", "the normaliser of definitions")
-	run.Assume = append(run.Assume, "the tolerated differences are those the property lists: defaults, examples, descriptive text, generator-added x-go-* extensions, the default format made explicit",
+	run.Assume = append(run.Assume, "the tolerated differences are those the property lists: defaults, examples, descriptive text, generator-added x-go-* extensions, the default format made explicit", "minProperties / maxProperties are not among the constraints the property enumerates and are not compared (the round trip loses them)",
 		"the Lean recognisers transcribe the number sub-expression of the scanner's regexps by hand; the regexp engine is not modelled")
 	for si := 0; si < nSpecs; si++ {
 		g := &msGen{r: r.Fork(), defs: []string{"Alpha", "Beta", "Gamma"}}
